@@ -78,8 +78,9 @@ fn compare(ix: &DatasetIndex, m: &Model) -> Result<(), String> {
     if all != m.quads || all.len() != all_v.len() { return Err(format!("all_quads() = {:?}, expected {:?} each once", all_v, m.quads)); }
     // graph listing including the default graph
     let gs: Vec<GraphId> = ix.graphs();
-    let want_gs: Vec<GraphId> = std::iter::once(GraphId::Default).chain(m.graphs.iter().map(|n| GraphId::Named(*n))).collect();
-    if gs != want_gs { return Err(format!("graphs() = {:?}, expected {:?}", gs, want_gs)); }
+    let gs_set: BTreeSet<GraphId> = gs.iter().copied().collect();
+    let want_gs: BTreeSet<GraphId> = std::iter::once(GraphId::Default).chain(m.graphs.iter().map(|n| GraphId::Named(*n))).collect();
+    if gs_set != want_gs || gs.len() != gs_set.len() { return Err(format!("graphs() = {:?}, expected exactly {:?}, each once (any order)", gs, want_gs)); }
     // cross-graph read paths
     let visible_sets: [Option<std::collections::HashSet<GraphId>>; 3] = [None, Some([GraphId::Named(0)].into_iter().collect()), Some([GraphId::Named(1), GraphId::Default].into_iter().collect())];
     for s in opts { for p in opts { for o in opts {
